@@ -9,7 +9,7 @@ from . import common_derive as cd, c17, c18
 EXHAUSTIVE = False  # contains a finite corpus of programs (witnesses / declarations)
 LEVEL = "translation_validation"
 EXPLANATION = (
-    "Translation validation of #[derive(TypeInfo)] over a corpus of declarations (engines/fixtures: 47 hand-written and 220 generated types covering named / unnamed / unit "
+    "Translation validation of #[derive(TypeInfo)] over a corpus of declarations (engines/fixtures: 60 hand-written and 222 generated types covering named / unnamed / unit "
     "shapes, generics, skip_type_params, codec skip / compact / index, explicit discriminants, rename, replace_segment with repeated and "
     "interfering pairs, lifetimes in every position, doc capture never / default / always, spacing, macro-generated types): the corpus is "
     "type-checked against the tree with the driver (rustc expands the derive; nothing is executed), the shape term of each *derived* "
@@ -364,7 +364,7 @@ def corpus(chk, tier):
         programs += 1
     else:
         chk.fail("R9.T", "decl:verif_fixtures::FromMacro", None, "macro-generated declaration missing", None)
-    chk.floor("R9.T", n, 260, "declarations in the corpus (47 hand-written, 220 generated by tools/gen_fixtures.py)")
+    chk.floor("R9.T", n, 260, "declarations in the corpus (60 hand-written, 222 generated by tools/gen_fixtures.py)")
     chk.analysed["programs"] = programs
     chk.analysed["disagreements"] = disagreements
     chk.extra_cov = {"programs": programs, "disagreements_checked": programs, "samples": samples}
